@@ -552,6 +552,22 @@ def main():
                 # the harness process stops after such a case (exit 4); that is not a separate error
                 hard_errors = [he for he in hard_errors if "harness error" in he]
             all_cases = [c for c in all_cases if c.get("coq_in") is not None and c.get("coq_obs") is not None]
+            # a harness process killed by a panic that is a recorded finding of ANOTHER property (the expiry timer's
+            # callback running on a closed store, KF-C20-panic: any family that closes buckets can meet it) says
+            # nothing about this property: the cases that process had not reached are lost, and said so; the check
+            # of the finding's own property reports it as the known finding it is
+            kept = []
+            for he in hard_errors:
+                kf = next((x for x in known if x.get("status") == "known" and x.get("process_panic") and x["process_panic"] in he), None)
+                if kf is None:
+                    kept.append(he)
+                    continue
+                notes.append("a %s harness process was killed by the recorded finding %s (%s); its remaining cases were not run" % (famname, kf.get("id"), kf["process_panic"]))
+                if kf.get("property") == prop:
+                    line = "KNOWN-FINDING: property=%s %s" % (prop, kf["what"])
+                    if line not in known_lines:
+                        known_lines.append(line)
+            hard_errors = kept
             for he in hard_errors:
                 log("harness error:", he)
                 p = write_replay("harness_%s" % famname, {"property": prop, "kind": "correspondence", "family": famname,
